@@ -331,8 +331,11 @@ def run_C07(ctx, E):
     nbad = len(ctx.bad)
     stage_record_trace(ctx, E, "extras", "Extras_Trace", "Extras_Trace.cfg", prop="EXTRAS", heap="8g",
                        env={"POLY_CLI": E.build_cli(ctx.work)})
+    seen = set()
     for b in ctx.bad[nbad:]:
-        print("NOTE: behaviour outside the listed properties differs from the specification (Extras_Trace): %s" % b["detail"][:300])
+        if b["detail"] not in seen:
+            seen.add(b["detail"])
+            print("NOTE: behaviour outside the listed properties differs from the specification (Extras_Trace): %s" % b["detail"][:300])
     ctx.stage_info.append({"stage": "extras (advisory)", "mismatches": len(ctx.bad) - nbad})
     del ctx.bad[nbad:]
 
